@@ -20,9 +20,10 @@ Samples == { Card("px", <<1>>, 1), Card("p", <<1, 2, 0, 2>>, 1), Card("s", <<1, 
              Card("kz", <<1, 1, 1>>, 1), Card("k/x", <<1, 0, -1, 1, -1>>, 1), Card("ky", <<-1, 1, -1>>, 4),
              Card("tz", <<0, 1, 0, 3, 1, 1>>, 1), Card("tx", <<1, 0, 0, 4, 2, 1>>, 1),
              Card("sq", <<1, 2, 0, 0, 0, 0, -4, 1, 0, 0>>, 1), Card("gq", <<1, 0, 1, 1, 0, 0, 0, 2, 0, -3>>, 1),
+             Card("gq", <<1, 2, 1, 1, 2, -1, 0, 2, 0, -6>>, 1),     \* three different cross terms (xy, yz, zx)
              Card("rpp", <<-1, 2, 0, 1, -1, 1>>, 1), Card("rcc", <<0, 0, -1, 0, 0, 3, 1>>, 1),
              Card("x", <<-1, 0, 1, 2>>, 1), Card("p", <<1, 0, 0, 1, 1, 0, 0, 0, 2>>, 1) }
-SamplesL == IF Lvl = 1 THEN { c \in Samples : c.k \in {"p", "c/z", "kz", "k/x", "tz", "sq", "rpp", "rcc"} } ELSE Samples
+SamplesL == IF Lvl = 1 THEN { c \in Samples : c.k \in {"p", "c/z", "kz", "k/x", "tz", "sq", "rpp", "rcc"} \/ (c.k = "gq" /\ c.p[5] # 0) } ELSE Samples
 Disps == IF Lvl = 1 THEN { <<2, -1, 0>> } ELSE { <<0, 0, 0>>, <<2, -1, 0>>, <<0, 1, -2>> }
 (* "implicitdense": the deck's largest explicit surface number lies just below the implicit number   *)
 (* 1000*c+s and the cell c that carries the TRCL lists another surface first, so that surface keys    *)
